@@ -161,8 +161,26 @@ Definition py_contains (x c : val) : res bool :=
   | _ => Err TypeErr
   end.
 
+Fixpoint field_get (f : list (string * val)) (a : string) : option val :=
+  match f with [] => None | (k, v) :: r => if String.eqb k a then Some v else field_get r a end.
+
+(** records order themselves by their [size] field and answer with 0 / 1 instead of False / True
+    (a comparison whose result is falsy without being [False]) *)
+Definition rec_size (v : val) : option Z :=
+  match v with
+  | VRec _ f => match field_get f "size" with Some x => as_int x | None => None end
+  | _ => None
+  end.
+
 Definition py_cmp (op : cop) (a b : val) : res val :=
   let lt x y := match val_ltb 50 x y with Some r => Ok r | None => Err TypeErr end in
+  let as01 (c : bool) : res val := Ok (VInt (if c then 1 else 0)) in
+  match rec_size a, rec_size b, op with
+  | Some x, Some y, CLt => as01 (Z.ltb x y)
+  | Some x, Some y, CLe => as01 (Z.leb x y)
+  | Some x, Some y, CGt => as01 (Z.ltb y x)
+  | Some x, Some y, CGe => as01 (Z.leb y x)
+  | _, _, _ =>
   match op with
   | CEq => Ok (VBool (val_eqb a b))
   | CNe => Ok (VBool (negb (val_eqb a b)))
@@ -174,10 +192,8 @@ Definition py_cmp (op : cop) (a b : val) : res val :=
   | CIsNot => Ok (VBool (negb (is_identical a b)))
   | CIn => match py_contains a b with Ok r => Ok (VBool r) | Err e => Err e end
   | CNotIn => match py_contains a b with Ok r => Ok (VBool (negb r)) | Err e => Err e end
+  end
   end.
-
-Fixpoint field_get (f : list (string * val)) (a : string) : option val :=
-  match f with [] => None | (k, v) :: r => if String.eqb k a then Some v else field_get r a end.
 
 Definition py_getattr (v : val) (a : string) : res val :=
   match v with
